@@ -5,7 +5,8 @@
 // Bounded-exhaustive: every sequence of up to L pieces over a fixed alphabet of
 // CSS fragments (selectors, combinators, punctuation, whitespace, comments,
 // strings with escapes, url(), numbers, at-keywords), each placed in three
-// contexts (alone, as the prelude of a rule, as the body of a rule), goes
+// contexts (alone, as the prelude of a rule, as the body of a rule, as the
+// prelude of a rule inside an @media block), goes
 // through the real javascript.MinifyCSS; original and result are tokenized with
 // a reference CSS Syntax 3 tokenizer (csstok.go) and compared. The shipped
 // stylesheets are judged the same way.
@@ -38,6 +39,7 @@ var contexts = []struct{ name, prefix, suffix string }{
 	{"bare", "", ""},
 	{"prelude", "", "{c:d}"},
 	{"body", "e{", "}"},
+	{"nested-prelude", "@media x{", "{c:d}}"}, // a rule prelude at brace depth 1, inside an at-rule block
 }
 
 type witness struct {
@@ -499,7 +501,7 @@ func main() {
 		repo = "/repo"
 	}
 
-	r.Rule(fmt.Sprintf("every sequence of 0..%d pieces over the %d-piece alphabet %q, each in the contexts bare / S+\"{c:d}\" (S is a rule prelude) / \"e{\"+S+\"}\" (S is a rule body), through javascript.MinifyCSS; plus every .css file under lib/ whole and rule by rule; distinct = (context, kinds of all CSS tokens of the input incl. whitespace and comments) of inputs whose text the minifier changed",
+	r.Rule(fmt.Sprintf("every sequence of 0..%d pieces over the %d-piece alphabet %q, each in the contexts bare / S+\"{c:d}\" (S is a rule prelude) / \"e{\"+S+\"}\" (S is a rule body) / \"@media x{\"+S+\"{c:d}}\" (S is a rule prelude inside an at-rule block), through javascript.MinifyCSS; plus every .css file under lib/ whole and rule by rule; distinct = (context, kinds of all CSS tokens of the input incl. whitespace and comments) of inputs whose text the minifier changed",
 		maxLen, len(alphabet), alphabet))
 	r.Assume("the CSS Syntax Level 3 tokenizer in harness/c34css/csstok.go is the reference for what the tokens of a text are",
 		"a semicolon is redundant when the next token is ';' or '}'",
@@ -638,7 +640,7 @@ func main() {
 	r.Set("alphabet_size", k)
 
 	// A few enumerated cases written out (fixed choices, so every run shows the same).
-	for _, in := range []string{"a  .b > #c{c:d}", "a :hover , .b{c:d}", "e{a : 1px ;; }", "@media ( a ){c:d}", "e{;;\"s  t\" ;}", ".b/*x*/ .b\n{c:d}"} {
+	for _, in := range []string{"a  .b > #c{c:d}", "a :hover , .b{c:d}", "e{a : 1px ;; }", "@media x{.b :hover , a ::before{c:d}}", "e{;;\"s  t\" ;}", ".b/*x*/ .b\n{c:d}"} {
 		v, min := judge(in)
 		r.Sample(map[string]any{"input": in, "minified": min, "combinator_positions_judged": v.combPos, "verdict": map[bool]string{true: "same tokens", false: v.cell}[v.cell == ""]})
 	}
